@@ -67,7 +67,7 @@ def build_cases(tier):
     for method in ('fork', 'spawn', 'forkserver'):
         cases.append(suite(ALL_KINDS, 5, 3, 200, method))
         cases.append(suite(ALL_KINDS, 2, 2, 60, method))
-    for _ in range(3):               # scheduling differs from run to run
+    for _ in range(2):               # scheduling differs from run to run
         cases += [suite(ALL_KINDS, 8, 1, 150, 'fork'), suite(ALL_KINDS, 1, 8, 150, 'fork'),
                   suite(ALL_KINDS, 4, 4, 100, 'fork'), suite(ALL_KINDS, 3, 2, 48, 'fork')]
     cases += [suite(['list_append', 'list_pop', 'dict_pop', 'refcount'], 3, 3, 80, 'spawn'),
